@@ -132,6 +132,10 @@ def run(res, n):
             per[on] = (kind, out)
             cases.append((t, on, kind, out))
         res.count('help: ' + per[1][0])
+        if t is shipped and (per[1][0] != 'ok' or per[0][0] != 'ok'):
+            # the concrete failing input when C17_help_shipped_exact no longer checks: `help matcher` on the shipped file
+            res.disagree('help_text() fails on the shipped matchers.md', 'matchers.md', 'a screen (C17_help_shipped_exact)', [per[1][0], per[0][0]],
+                         sig={'category': 'shipped-help', 'entry': 'help'}, theorem='C17_help_shipped_exact')
         # the property's relation, on the implementation alone
         if '\x1b' not in t and per[1][0] == 'ok' and per[0][0] == 'ok':
             if SGR.sub('', per[1][1]) != per[0][1] or '\x1b' in per[0][1]:
